@@ -19,39 +19,135 @@ def checksum(ids):
     return acc
 
 
+def lay(arr, layout):
+    """The same values in another memory layout."""
+    if not layout or layout == 'native':
+        return arr
+    if layout == 'bigendian':
+        return arr.astype(arr.dtype.newbyteorder('>'))
+    if layout == 'strided':                   # every other element of a larger buffer
+        buf = np.zeros(2 * arr.size, dtype=arr.dtype)
+        buf[::2] = arr
+        return buf[::2]
+    if layout == 'reversed':                  # negative stride
+        buf = arr[::-1].copy()
+        return buf[::-1]
+    if layout == 'bigendian-reversed':
+        buf = arr[::-1].astype(arr.dtype.newbyteorder('>'))
+        return buf[::-1]
+    if layout == 'readonly':
+        out = arr.copy()
+        out.setflags(write=False)
+        return out
+    if layout == '2d-transposed':             # logical shape (n/2, 2) (n even) stored in Fortran order
+        n = arr.size
+        if n % 2 or n == 0:
+            return arr
+        return np.asfortranarray(arr.reshape(n // 2, 2))
+    raise ValueError('layout ' + layout)
+
+
 def conv(a, dtype=np.int64):
+    """Argument descriptor -> the Python object handed to pydl.
+    {'s': v} Python int; with 'form': 'bool' Python bool, 'np:<dtype>' NumPy scalar, '0d:<dtype>' zero-dimensional array;
+    {'a': [...]} ndarray (dtype 'dt', memory layout 'layout'); with 'form': 'list' a Python list; {'str': text} a string."""
     if a is None:
         return None
     if 's' in a:
-        return int(a['s'])
+        v = int(a['s'])
+        form = a.get('form')
+        if not form:
+            return v
+        if form == 'bool':
+            assert v in (0, 1)
+            return bool(v)
+        kind, dt = form.split(':')
+        sc = np.dtype(dt).type(v)
+        assert int(sc) == v
+        return sc if kind == 'np' else np.array(sc)
     if 'str' in a:
         return a['str']
-    return np.array([int(x) for x in a['a']], dtype=np.dtype(a['dt']) if a.get('dt') else dtype)
+    if a.get('form') == 'list':
+        return [int(x) for x in a['a']]
+    arr = np.array([int(x) for x in a['a']], dtype=np.dtype(a['dt']) if a.get('dt') else dtype)
+    return lay(arr, a.get('layout'))
+
+
+def flat(r):
+    """Result rows in logical (C) order, whatever the shape (0-d included)."""
+    return [int(x) for x in np.asarray(r).ravel(order='C')]
+
+
+def same_array(x, y):
+    return isinstance(x, np.ndarray) and isinstance(y, np.ndarray) and x.dtype == y.dtype and x.shape == y.shape and np.array_equal(x, y)
+
+
+def refill(arrs, new):
+    """Class A: the caller refills its arrays in place between two calls."""
+    for x, d in zip(arrs, new):
+        if isinstance(x, np.ndarray) and d is not None and 'a' in d:
+            x[...] = np.array([int(v) for v in d['a']], dtype=x.dtype).reshape(x.shape)
+
+
+def two_step(fn, pa, kw, c):
+    """call, let the caller overwrite the argument arrays in place, call again with the very same objects"""
+    r1 = fn(*pa, **kw)
+    out = {'ok': flat(r1), 'dtype': str(r1.dtype), 'shape': list(np.shape(r1))}
+    a2 = c['args2']
+    refill(pa, [a2.get(k) for k in c['order'][:len(pa)]])
+    refill(list(kw.values()), [a2.get(k) for k in kw])
+    if flat(r1) != out['ok']:
+        out['first_result_changed'] = True       # the result aliases an argument
+    try:
+        r2 = fn(*pa, **kw)
+        out['step2'] = {'ok': flat(r2), 'dtype': str(r2.dtype)}
+        if flat(r1) != out['ok']:
+            out['first_result_changed'] = True   # the second call wrote into the first result
+    except Exception as e2:  # noqa: BLE001
+        out['step2'] = err(e2)
+    return out
 
 
 def err(e):
     return {'err': type(e).__name__, 'msg': str(e)[:120]}
 
 
-def unwrap_rows(f, c, arr, n):
+def unwrap_objs(f, c, arr):
     if f == 'unobj':
-        u = unwrap_objid(arr)
-        return [[int(u[k][j]) for k in ('skyversion', 'rerun', 'run', 'camcol', 'firstfield', 'frame', 'id')]
-                for j in range(n)]
-    ui = unwrap_specobjid(arr, run2d_integer=True, specLineIndex=bool(c.get('index')))
-    us = unwrap_specobjid(arr, run2d_integer=False)
+        return (unwrap_objid(arr),)
+    return (unwrap_specobjid(arr, run2d_integer=True, specLineIndex=bool(c.get('index'))),
+            unwrap_specobjid(arr, run2d_integer=False))
+
+
+def col(u, k):
+    return np.asarray(u[k]).ravel(order='C')
+
+
+def rows_of(f, c, objs, n):
+    """rows in logical (C) order of the input, whatever its shape"""
+    if f == 'unobj':
+        u = objs[0]
+        cols = [col(u, k) for k in ('skyversion', 'rerun', 'run', 'camcol', 'firstfield', 'frame', 'id')]
+        return [[int(cc[j]) for cc in cols] for j in range(n)]
+    ui, us = objs
+    lk = 'index' if c.get('index') else 'line'
+    ci = [col(ui, k) for k in ('plate', 'fiber', 'mjd', 'run2d', lk)]
+    cs = [col(us, k) for k in ('plate', 'fiber', 'mjd', 'line', 'run2d')]
     rows = []
     for j in range(n):
-        m = re.fullmatch(r'v(-?\d+)_(-?\d+)_(-?\d+)', str(us.run2d[j]))
+        m = re.fullmatch(r'v(-?\d+)_(-?\d+)_(-?\d+)', str(cs[4][j]))
         nmp = [int(g) for g in m.groups()] if m else [-999, -999, -999]
-        lk = 'index' if c.get('index') else 'line'
-        row_i = [int(ui.plate[j]), int(ui.fiber[j]), int(ui.mjd[j]), int(ui.run2d[j])] + nmp + [int(ui[lk][j])]
-        same = (int(us.plate[j]), int(us.fiber[j]), int(us.mjd[j]), int(us.line[j])) == \
+        row_i = [int(ci[0][j]), int(ci[1][j]), int(ci[2][j]), int(ci[3][j])] + nmp + [int(ci[4][j])]
+        agree = (int(cs[0][j]), int(cs[1][j]), int(cs[2][j]), int(cs[3][j])) == \
             (row_i[0], row_i[1], row_i[2], row_i[7])
-        if not same:
+        if not agree:
             row_i.append(-1)  # string and integer modes disagree -> guaranteed mismatch
         rows.append(row_i)
     return rows
+
+
+def unwrap_rows(f, c, arr, n):
+    return rows_of(f, c, unwrap_objs(f, c, arr), n)
 
 
 def descr(rec):
@@ -79,14 +175,16 @@ def call(c):
                     kw[k] = conv(a[k])
             pa = [conv(a['run']), conv(a['camcol']), conv(a['field']), conv(a['objnum'])]
             allargs = pa + list(kw.values())
+            if c.get('args2'):
+                return two_step(sdss_objid, pa, kw, c)
             before = [x.copy() if isinstance(x, np.ndarray) else x for x in allargs]
             r = sdss_objid(*pa, **kw)
-            out = {'ok': [int(x) for x in r], 'dtype': str(r.dtype)}
-            if any(isinstance(x, np.ndarray) and not np.array_equal(x, y) for x, y in zip(allargs, before)):
+            out = {'ok': flat(r), 'dtype': str(r.dtype), 'shape': list(np.shape(r))}
+            if any(isinstance(x, np.ndarray) and not same_array(x, y) for x, y in zip(allargs, before)):
                 out['inputs_modified'] = ['some array argument']
             try:
                 r2 = sdss_objid(*pa, **kw)
-                if [int(x) for x in r2] != out['ok']:
+                if flat(r2) != out['ok']:
                     out['repeat_differs'] = [int(x) for x in r2]
             except Exception as e2:  # noqa: BLE001
                 out['repeat_differs'] = type(e2).__name__
@@ -98,17 +196,20 @@ def call(c):
                 if a.get(k) is not None:
                     kw[k] = conv(a[k])
             pa = [conv(a['plate']), conv(a['fiber']), conv(a['mjd']), conv(a['run2d'])]
-            before = [x.copy() if isinstance(x, np.ndarray) else x for x in pa]
+            if c.get('args2'):
+                return two_step(sdss_specobjid, pa, kw, c)
+            allargs = pa + list(kw.values())
+            before = [x.copy() if isinstance(x, np.ndarray) else x for x in allargs]
             r = sdss_specobjid(*pa, **kw)
-            out = {'ok': [int(x) for x in r], 'dtype': str(r.dtype)}
+            out = {'ok': flat(r), 'dtype': str(r.dtype), 'shape': list(np.shape(r))}
             # the caller's arrays must not be modified, and a second call with the very same objects must agree
-            changed = [n for n, x, y in zip(('plate', 'fiber', 'mjd', 'run2d'), pa, before)
-                       if isinstance(x, np.ndarray) and not np.array_equal(x, y)]
+            changed = [n for n, x, y in zip(('plate', 'fiber', 'mjd', 'run2d', 'line/index'), allargs, before)
+                       if isinstance(x, np.ndarray) and not same_array(x, y)]
             if changed:
                 out['inputs_modified'] = changed
             try:
                 r2 = sdss_specobjid(*pa, **kw)
-                if [int(x) for x in r2] != out['ok']:
+                if flat(r2) != out['ok']:
                     out['repeat_differs'] = [int(x) for x in r2]
             except Exception as e2:  # noqa: BLE001
                 out['repeat_differs'] = type(e2).__name__
@@ -121,15 +222,27 @@ def call(c):
             elif c.get('as_str'):
                 arr = np.array([str(i) for i in ids])
             else:
-                arr = np.array(ids, dtype=base)
-                if c.get('layout') == 'bigendian':       # same values, non-native byte order
-                    arr = arr.astype(arr.dtype.newbyteorder('>'))
-                elif c.get('layout') == 'strided':       # same values, every other element of a larger buffer
-                    buf = np.zeros(2 * len(ids), dtype=base)
-                    buf[::2] = arr
-                    arr = buf[::2]
+                arr = lay(np.array(ids, dtype=np.dtype(c['dt']) if c.get('dt') else base), c.get('layout'))
             before = arr.copy()
-            out = {'ok': unwrap_rows(f, c, arr, len(ids))}
+            objs = unwrap_objs(f, c, arr)
+            out = {'ok': rows_of(f, c, objs, len(ids))}
+            if any(tuple(o.shape) != tuple(arr.shape) for o in objs):
+                out['shape_differs'] = [list(o.shape) for o in objs]
+            if c.get('ids2'):
+                # class A: the caller overwrites its ID array in place; the record already returned must not change,
+                # and unwrapping the same array object again gives the rows of the NEW values
+                if arr.flags.writeable:
+                    if arr.dtype.kind in 'SU':
+                        arr[...] = np.array([str(i) for i in c['ids2']]).astype(arr.dtype).reshape(arr.shape)
+                    else:
+                        arr[...] = np.array(c['ids2'], dtype=arr.dtype).reshape(arr.shape)
+                    if rows_of(f, c, objs, len(ids)) != out['ok']:
+                        out['first_result_changed'] = True
+                    try:
+                        out['step2'] = {'ok': unwrap_rows(f, c, arr, len(ids))}
+                    except Exception as e2:  # noqa: BLE001
+                        out['step2'] = err(e2)
+                    return out
             # record dtypes (field names, storage types) and, for specObjID, the run2d tags exactly as stored
             if f == 'unobj':
                 out['dtypes'] = {'record': descr(unwrap_objid(arr))}
